@@ -426,7 +426,7 @@ class Ctx:
             if k != "rule":
                 ev["coverage"][k] = jsonable(v)
         evdir = os.path.join(VERIF, "evidence")
-        if os.environ.get("VERIF_REPO_SRC", "/repo/src") != "/repo/src":
+        if os.environ.get("VERIF_REPO_SRC", "/repo/src") != "/repo/src" or getattr(self, "no_proof", False):
             evdir = os.path.join(VERIF, ".work", "evidence-scratch")
         os.makedirs(evdir, exist_ok=True)
         json.dump(ev, open(os.path.join(evdir, "%s.json" % self.pid), "w"), indent=1)
